@@ -100,7 +100,7 @@ def main():
     report["caught_by"] = [c for c, r in results.items() if r["exit"] == 1]
     print(json.dumps(report, indent=1))
     if args.keep:
-        dest = os.path.join(VERIF, "seeded", args.name)
+        dest = os.path.join(os.environ.get("SEED_KEEP_ROOT", os.path.join(VERIF, "seeded")), args.name)
         os.makedirs(dest, exist_ok=True)
         for name in ("patch.diff", "demo.py"):
             if os.path.abspath(seed) != os.path.abspath(dest):
